@@ -107,6 +107,12 @@ def run_scenario(sc, pause=None, keep=False, every_event=None, runtime=None):
         except T.StepBudgetExceeded as e:
             tr.status = 'budget'
             tr.exc = e
+            tr.partial = True
+            try:                      # what the monitor has recorded so far is still judged (prefix properties)
+                tr.events_df = sim.monitor.events
+                tr.df = sim.monitor.df
+            except Exception:
+                pass
         except Exception as e:
             if T.harness_frame_innermost(e) and not isinstance(e, AssertionError):
                 raise
